@@ -523,7 +523,8 @@ LoopOnIterator:
 
 		if userRelation == "" {
 			for _, f := range req.GetUserFilters() {
-				if f.GetType() == userObjectType {
+				// a filter for usersets (type#relation) does not select plain objects of that type
+				if f.GetType() == userObjectType && f.GetRelation() == "" {
 					user := tuple.StringToUserProto(tuple.BuildObject(userObjectType, userObjectID))
 
 					concurrency.TrySendThroughChannel(ctx, foundUser{
